@@ -92,6 +92,10 @@ Definition all_bits : list (list bool) :=
     [false; false; false; true]; [true; false; false; true]; [false; true; false; true]; [true; true; false; true];
     [false; false; true; true]; [true; false; true; true]; [false; true; true; true]; [true; true; true; true] ].
 
+(* schedules tried for one op: every resolution of up to 4 racy selects, under each of 6 running orders *)
+Definition all_schedules : list (nat * list bool) :=
+  flat_map (fun ord => map (fun bits => (ord, bits)) all_bits) [0; 1; 2; 3; 4; 5]%nat.
+
 Record mstate := mkM { m_st : st; m_evs : list event; m_prox : list Z }.
 
 Definition is_goroutine_event (e : event) : bool := match e with EProbe _ => true | _ => false end.
@@ -104,11 +108,11 @@ Definition agree_step (rc : bool) (m : mstate) (x : op * obs) : option mstate :=
   let prox' := match o, ores b with
                | ORequest _, RHttp code stub => if code =? 200 then stub :: m_prox m else m_prox m
                | _, _ => m_prox m end in
-  let try (bits : list bool) :=
-      let '(s', ev) := macro rc (m_st m) o O bits in
+  let try (ob : nat * list bool) :=
+      let '(s', ev) := macro rc (m_st m) o O (fst ob) (snd ob) in
       let evs' := m_evs m ++ filter is_goroutine_event ev in
       if state_matches s' evs' prox' b then Some (mkM s' evs' prox') else None in
-  fold_left (fun acc bits => match acc with Some _ => acc | None => try bits end) all_bits None.
+  fold_left (fun acc ob => match acc with Some _ => acc | None => try ob end) all_schedules None.
 
 Fixpoint agree_hist (rc : bool) (m : mstate) (tr : list (op * obs)) : bool :=
   match tr with
